@@ -14,6 +14,7 @@ mod history;
 mod pool;
 mod render;
 mod trace_sink;
+mod trace_threads;
 mod util;
 mod val;
 
@@ -58,6 +59,7 @@ fn main() {
         "worker" => pool::worker_main(),
         "trace" => match args.get(2).map(|s| s.as_str()) {
             Some("sink") => trace_sink::main(&args[3..]),
+            Some("threads") => trace_threads::main(&args[3..]),
             _ => 2,
         },
         _ => {
